@@ -200,6 +200,19 @@ def core_runs():
             d[-1] = 4
             run([kind, "log"], d, [2] * n, "tpoly")
             run(["log", kind], [2] * n, d, "tpoly")
+    # single-sample excursions out of the range and back (a trimmed part directly followed by a cut part: usr > raw, the
+    # parts' drawn points run ahead of the values consumed), at the start / in the middle / at the end / several in a row,
+    # in one and in both dimensions, longer than the exhaustive bound: every point of every part is compared
+    exc = ([2, 4, 2, 2, 4, 2, 0, 2], [4, 2, 4, 2, 0, 2, 2], [2, 2, 4, 2, 0, 2, 4, 2, 2], [2, 4, 2, 2, 2, 0, 2],
+           [1, 4, 3, 0, 1, 4, 2], [0, 2, 4, 2, 4, 2, 0, 2, 2, 2])
+    for p in exc:
+        for kind in ("lin+", "lin-", "log"):
+            run([kind], p, [], "tpoly")
+        for k1, k2 in (("lin+", "lin-"), ("lin-", "log"), ("log", "lin+"), ("log", "log")):
+            run([k1, k2], p, [2] * len(p), "tpoly")
+            run([k1, k2], [2] * len(p), p, "tpoly")
+            run([k1, k2], p, list(reversed(p)), "tpoly")
+            run([k1, k2], p, p[1:] + [2], "tapply")
     for k1 in ("lin+", "log"):
         for k2 in ("lin-", "log"):
             for d1, d2 in (([2, 2, 4, 2, 2], [2, 2]), ([2, 2, 4, 2, 2, 2], [2, 2, 2]), ([0, 0, 0, 2, 2], [2, 2]),
